@@ -16,6 +16,7 @@ class Scratch:
 
     def __enter__(self):
         subprocess.run(["rsync", "-a", "--exclude", "/target", "--exclude", ".git", REPO + "/", self.repo + "/"], check=True)
+        freshen(self.repo)
         return self
 
     def __exit__(self, *a):
@@ -26,6 +27,18 @@ class Scratch:
         os.makedirs(os.path.dirname(p), exist_ok=True)
         with open(p, "a" if append else "w") as f:
             f.write(text)
+
+
+def freshen(repo_dir):
+    """give every source file of a scratch copy the current mtime: the build caches under /verif/.cache are shared between
+    scratch copies of different trees (unchanged, seeded), and cargo's freshness test is mtime-based — a copy whose files
+    are older than a cached artifact of ANOTHER tree would otherwise be considered up to date"""
+    now = None
+    for root, dirs, files in os.walk(repo_dir):
+        dirs[:] = [d for d in dirs if d not in ("target", ".git")]
+        for f in files:
+            if f.endswith((".rs", ".toml", ".lock")):
+                os.utime(os.path.join(root, f), now)
 
 
 def cargo_env(target_name):
